@@ -567,3 +567,28 @@ silent('C17', 'machine-group-guard-reordered',
 silent('C17', 'source-update-state-augmented',
        lambda p: M.replace_node(p, N_SRC, 'Source.update_state', M.assign_to("self.stats['total_time_spent_in_states'][self.state]"),
                                 "self.stats['total_time_spent_in_states'][self.state] += elapsed"))
+
+# ============================================================================================ C14
+fire('C14', 'fleet-no-capacity-trigger', 'C14.R1', 'FleetStore._do_put',
+     lambda p: M.replace_node(p, S_FLT, 'FleetStore._do_put', M.if_testing('== self.capacity'), 'pass'))
+fire('C14', 'fleet-trigger-one-early', 'C14.R1', 'FleetStore._do_put',
+     lambda p: M.replace_node(p, S_FLT, 'FleetStore._do_put', M.if_testing('== self.capacity'), sub('== self.capacity', '== self.capacity - 1')))
+fire('C14', 'fleet-trigger-tested-before-append', 'C14.R1', 'FleetStore._do_put',
+     lambda p: M.chain(p, lambda q: M.delete_stmt(q, S_FLT, 'FleetStore._do_put', M.stmt_calling('self.items.append')),
+                       lambda q: M.insert_after(q, S_FLT, 'FleetStore._do_put', M.if_testing('== self.capacity'), 'self.items.append(item)\nself._update_time_averaged_level()')))
+fire('C14', 'fleet-activation-ignores-capacity-event', 'C14.R2', 'fleet_activation_process',
+     lambda p: M.replace_node(p, S_FLT, 'FleetStore.fleet_activation_process', M.assign_to('event_list'), 'event_list = [timeout_event]'))
+fire('C14', 'fleet-activation-waits-transit-delay', 'C14.R2', 'fleet_activation_process',
+     lambda p: M.replace_node(p, S_FLT, 'FleetStore.fleet_activation_process', M.assign_to('timeout_event'), 'timeout_event = self.env.timeout(self.transit_delay)'))
+fire('C14', 'fleet-departs-empty', 'C14.R2', 'fleet_activation_process',
+     lambda p: M.replace_node(p, S_FLT, 'FleetStore.fleet_activation_process', lambda n: isinstance(n, ast.If) and ast.unparse(n.test) == 'self.items', sub('if self.items:', 'if True:')))
+fire('C14', 'fleet-one-way-trip', 'C14.R3', 'move_to_ready_items',
+     lambda p: M.delete_stmt(p, S_FLT, 'FleetStore.move_to_ready_items', lambda n: isinstance(n, ast.Expr) and isinstance(n.value, ast.Yield), which=1))
+fire('C14', 'fleet-trip-uses-delay', 'C14.R3', 'move_to_ready_items',
+     lambda p: M.replace_node(p, S_FLT, 'FleetStore.move_to_ready_items', M.is_call('self.env.timeout'), 'self.env.timeout(self.delay)', which=0))
+fire('C14', 'fleet-items-trickle', 'C14.R3', 'move_to_ready_items',
+     lambda p: M.insert_after(p, S_FLT, 'FleetStore.move_to_ready_items', M.stmt_calling('self._trigger_reserve_put'), 'yield self.env.timeout(0)'))
+silent('C14', 'fleet-batch-snapshot (repairs D4: the known finding must disappear, nothing new may appear)',
+       lambda p: M.replace_node(p, S_FLT, 'FleetStore.fleet_activation_process', M.is_call('self.move_to_ready_items'), 'self.move_to_ready_items(list(self.items))'))
+silent('C14', 'fleet-trigger-ge',
+       lambda p: M.replace_node(p, S_FLT, 'FleetStore._do_put', M.if_testing('== self.capacity'), sub('== self.capacity', '>= self.capacity')))
